@@ -15,6 +15,20 @@ impl<A> It<A> {
             old(self).seq().len() == 0 ==> r.is_none() && final(self).seq() == old(self).seq(),
             old(self).seq().len() > 0 ==> r == Some(old(self).seq()[0]) && final(self).seq() == old(self).seq().skip(1),
     { unimplemented!() }
+    // DoubleEndedIterator::next_back on a finite iterator: the last item, and the front part stays
+    #[verifier::external_body]
+    pub fn next_back(&mut self) -> (r: Option<A>)
+        requires old(self).forever().is_none(),
+        ensures
+            final(self).forever().is_none(),
+            old(self).seq().len() == 0 ==> r.is_none() && final(self).seq() == old(self).seq(),
+            old(self).seq().len() > 0 ==> r == Some(old(self).seq().last()) && final(self).seq() == old(self).seq().drop_last(),
+    { unimplemented!() }
+    // Iterator::size_hint: the upper bound is what the iterator announces (it may be loose for Filter-like adaptors)
+    #[verifier::external_body]
+    pub fn size_hint(&self) -> (r: (usize, Option<usize>))
+        ensures r.1 == (match self.announced() { Some(a) => Some(a as usize), None => None::<usize> }),
+    { unimplemented!() }
     // itertools::Itertools::tuple_windows::<(A, A)>: consecutive pairs
     #[verifier::external_body]
     pub fn tuple_windows(self) -> (r: It<(A, A)>)
